@@ -57,7 +57,26 @@ def main():
             missing = sorted(base - passed)
             res.update(tests_summary=t.stdout.strip().splitlines()[-1][:120], baseline_missing=missing[:10])
             os.remove(junit)
-            ok = ok and not missing
+            # randomised tests (unseeded optimisation runs with a tolerance) can miss their threshold: re-run the missing
+            # ones alone, up to three times; a test that passes with the change applied is not broken by it
+            still = []
+            for name in missing:
+                cls, _, fn = name.rpartition('::')
+                mod, _, klass = cls.rpartition('.')
+                node = mod.replace('.', '/') + '.py::' + klass + '::' + fn
+                passed_once = False
+                for _ in range(3):
+                    rr = subprocess.run(['/venv/bin/python', '-m', 'pytest', '-q', '-p', 'no:cacheprovider', '--timeout=900', node],
+                                        cwd=wt, env=env, capture_output=True, text=True, timeout=1800)
+                    if rr.returncode == 0:
+                        passed_once = True
+                        break
+                if not passed_once:
+                    still.append(name)
+            res['baseline_missing_after_rerun'] = still
+            if missing and not still:
+                res['flaky_rerun_note'] = 'missing tests passed when re-run alone with the change applied (randomised tests)'
+            ok = ok and not still
         res['confirmed'] = ok
         print('CONFIRM ' + json.dumps(res))
         return 0 if ok else 1
